@@ -55,6 +55,10 @@ tie theorem fail); nothing is skipped silently (comments are not code; attribute
 `#[cfg(cryptoxide_verif)]` / `#[must_use]` / `#[inline]`, do not change what the fn does when it exists).
 Evaluation order: operands and arguments are evaluated left to right as in Rust; a later operand/argument whose evaluation re-binds a
 variable (a nested call with `&mut` effects) is refused, so that an earlier operand's text can never observe a later effect.
+After audit 3 (tools/ktx_glue_guard.py): `find_blocks` / `find_fn_in` look only at COMPILED items (item `#[cfg]` evaluated with the
+guard's table) and brace-match with string literals masked; inner-block shadowing, `let x = &mut …` aliases (copy semantics here),
+a `let` that re-binds a `&mut` parameter (the result tuple is read under the parameter names), changed imports of a used name and a
+literal-typed variable that is only cast are refused.
 """
 import os
 import re
@@ -62,6 +66,7 @@ import re
 import kernel_translate as KT
 from kernel_translate import TranslateError, lex, strip_comments
 from ktx_misc import P2, protect_bytestrings
+import ktx_glue_guard as GUARD
 
 LEAN_KEYWORDS = {"at", "from", "end", "open", "show", "have", "fun", "then", "else", "if", "do", "let", "in", "with", "match", "by",
                  "where", "def", "instance", "structure", "class", "local", "section", "namespace", "variable", "universe", "import",
@@ -101,13 +106,23 @@ def balanced_end(text, i):
 
 
 def find_blocks(text, scope):
-    """texts of the `{ … }` that follow each match of regex `scope` (which must end at the `{`)"""
-    out = []
+    """texts of the `{ … }` that follow each match of regex `scope` (which must end at the `{`): the LIVE blocks only — the `#[cfg(…)]`
+    attributes in front of the item header are evaluated with the table of tools/ktx_glue_guard.py (a never-compiled `impl` placed first
+    is not a place to look for a function)"""
+    out, dead = [], 0
+    masked = GUARD.mask_literals(text)
     for m in re.finditer(scope, text):
-        j = text.index("{", m.end() - 1)
-        out.append(text[j + 1:balanced_end(text, j + 1) - 1])
+        # the item header starts at the beginning of the statement the match lies in
+        hs = max(masked.rfind(";", 0, m.start()), masked.rfind("}", 0, m.start()), masked.rfind("{", 0, m.start())) + 1
+        kw = re.search(r"\b(?:unsafe\s+)?(?:impl|trait|mod)\b", masked[hs:m.end()])
+        hstart = hs + kw.start() if kw else m.start()
+        if not GUARD.attrs_live(GUARD.attrs_before(text, hstart), f"scope {scope!r}"):
+            dead += 1
+            continue
+        j = masked.index("{", m.end() - 1)
+        out.append(text[j + 1:GUARD.close_of(masked, j) - 1])
     if not out:
-        raise TranslateError(f"scope {scope!r} not found")
+        raise TranslateError(f"scope {scope!r} not found" + (f" ({dead} cfg-disabled)" if dead else ""))
     return out
 
 
@@ -116,18 +131,21 @@ def find_fn_in(texts, fn):
     same name (e.g. under different `#[cfg]`s) are refused rather than one of them picked"""
     found = []
     for text in texts:
-        for m in re.finditer(r"\bfn\s+" + re.escape(fn) + r"\b", text):
-            if text[:m.start()].count("{") != text[:m.start()].count("}"):
+        masked = GUARD.mask_literals(text)
+        for m in re.finditer(r"\bfn\s+" + re.escape(fn) + r"\b", masked):
+            if masked[:m.start()].count("{") != masked[:m.start()].count("}"):
                 continue
+            if not GUARD.attrs_live(GUARD.attrs_before(text, m.start()), f"fn {fn}"):
+                continue                      # a definition that is not compiled (item #[cfg] evaluated with the guard's table)
             depth, j = 0, m.end()
             while j < len(text):
-                c = text[j]
+                c = masked[j]
                 if c in "([":
                     depth += 1
                 elif c in ")]":
                     depth -= 1
                 elif c == "{" and depth == 0:
-                    end = balanced_end(text, j + 1)
+                    end = GUARD.close_of(masked, j)
                     found.append((text[m.start():j], text[j + 1:end - 1]))
                     break
                 elif c == ";" and depth == 0:
@@ -388,9 +406,11 @@ class Tr:
         s = self.prog.structs[name]
         if s.decl is None:
             text = strip_comments(read_src(s.file))
-            m = re.search(r"\bstruct\s+" + re.escape(name) + r"\b\s*(<[^>{(;]*>)?\s*([({])", text)
-            if not m:
-                raise TranslateError(f"struct {name} not found in {s.file}")
+            ms = [m for m in re.finditer(r"\bstruct\s+" + re.escape(name) + r"\b\s*(<[^>{(;]*>)?\s*([({])", text)
+                  if GUARD.attrs_live(GUARD.attrs_before(text, m.start()), f"struct {name}")]
+            if len(ms) != 1:
+                raise TranslateError(f"struct {name}: {len(ms)} live declarations in {s.file}; exactly one is required")
+            m = ms[0]
             saved_types = self.k.types
             self.k.types = s.types
             try:
@@ -1420,6 +1440,8 @@ class Tr:
                 if s[1][0] == "var":
                     loc2.add(s[1][1])
                 walk_e(s[2]); self.assigned(s[3], env, acc, loc2)
+            else:
+                raise TranslateError(f"statement {k} is outside the subset")
         return acc
 
     def free_names(self, node, out=None):
@@ -1576,6 +1598,10 @@ def translate(k: GK):
     prog = k.prog
     text = strip_comments(read_src(k.file))
     hdr, body = find_fn_in(find_blocks(text, k.scope) if k.scope else [text], k.fn)
+    # statement attributes, nested items, inner-block shadowing, `let x = &mut …` aliases (copy semantics here), re-bound `&mut`
+    # parameters (the result tuple is read under the parameter names) and changed imports are refused (tools/ktx_glue_guard.py)
+    GUARD.lint_fn(hdr + " {", body, what=f"fn {k.fn}")
+    GUARD.check_fn_uses(k.file, text, hdr, body, what=f"fn {k.fn}")
     tr = Tr(k)
     consts, params, ret = parse_header(hdr)
     fnc = [c for c in consts if c not in prog.const_generics]      # fn-level const generics that are not impl generics
